@@ -3,7 +3,7 @@
    ok_events / in_input on event streams; wf_forest on the result). *)
 From Coq Require Import List ZArith Bool Permutation.
 From TM Require Import Gram.PTables Gram.Run Gram.Validator Gram.Events Gram.Events_proofs Gram.Events_strict Gram.Events_run
-  Gram.TreeBuilder Gram.TreeBuilder_proofs Gram.Events_nest.
+  Gram.TreeBuilder Gram.TreeBuilder_proofs Gram.Events_nest Gram.Pending Gram.Pending_sim.
 Import ListNotations.
 Local Open Scope Z_scope.
 
@@ -82,6 +82,20 @@ Proof. exact tree_nest. Qed.
 Theorem C20_nested_table_is_checkable : forall evt, nested_tableb evt = true -> nested_table evt.
 Proof. exact nested_tableb_sound. Qed.
 
+(* Reported skipped tokens (injected comments, invalid_token): Gram/Pending.v extends the loop by the lexer output
+   with skipped tokens, fetchNext's pending list and flush (called when a token is shifted, as in the template).
+   For EVERY machine, table, fixWhitespace setting, lexer output, fuel and outcome: erasing the skipped tokens from
+   the lexer output and the skipped-token callbacks from the listener stream gives EXACTLY the run of Events.xrun on
+   the real tokens (same outcome, stack, node events in the same order), and the skipped-token callbacks, followed
+   by what is still pending and what the lexer has not produced, are the skipped tokens in lexer order (none lost,
+   none reported twice): the stream is a merge of the old node stream with the skipped tokens in source order. *)
+Theorem C20_flushed_stream_is_merge :
+  forall m evt fixws fuel start end_state eoi_off lex o c',
+  pxrun fuel m evt fixws start end_state eoi_off lex = (o, c') ->
+  xrun fuel m evt fixws start end_state eoi_off (reals lex) = (o, erase c') /\
+  skips_of (pc_events c') ++ pc_pending c' ++ skipped (pc_lex c') = skipped lex.
+Proof. exact pxrun_sim. Qed.
+
 (* NOT proved here (partial): the same for the loop with error recovery (Gram/Recover.v: the error entry pushed by
    recoverFromError spans dropped stack entries and skipped tokens), for injected/reported tokens and for the
    hand-written js loop; and for parsers without fixWhitespace (there a node ending with an empty symbol extends
@@ -121,3 +135,4 @@ Print Assumptions C20_parser_and_builder.
 Print Assumptions C20_events_of_a_tree_are_nested.
 Print Assumptions C20_nested_table_is_checkable.
 Print Assumptions C20_add_node_keeps_the_forest.
+Print Assumptions C20_flushed_stream_is_merge.
